@@ -8,7 +8,10 @@ Read from clang's JSON AST of the working tree:
    `decltype(x)` and typedefs are resolved by the compiler), the `X.add(Y)` statements that compose the
    command-line and the config-file descriptions, and the member initialisers of bound members;
  * parse(): the statement sequence (AST gives the statement structure, each statement's source text is
-   matched against the narrow set of idioms listed in PARSE_IDIOMS; anything else is a TranslateError);
+   matched against a narrow set of idioms; anything else is a TranslateError): the lambda that refuses a
+   minus sign for unsigned options (NEGCHECK; must wrap both parsed sources), store of the command line
+   (parse_command_line = bare words dropped, or command_line_parser with an empty positional description =
+   bare words are errors), notify, the information switches, the config-file block, the /dev/null clears;
  * save(std::string): the if/else chain of the writer loop (skip list, alpha0 rule, type dispatch,
    precision manipulators, comment rule).
 Output: the merged option table in std::map (byte) order of the names - the order in which
@@ -231,15 +234,34 @@ def read_parse(src):
     decl, body = body_of(docs, "parse")
     st = stmts_of(body)
     texts = [norm(rng_text(s, src)) for s in st]
-    prog = dict(cli=[], flags=[], cfg=[], clidesc=None, cfgdesc=None, cfgvar=None, default_cfg=None)
+    prog = dict(cli=[], flags=[], cfg=[], clidesc=None, cfgdesc=None, cfgvar=None, default_cfg=None,
+                nopos=False, negcheck=[], checker=None, checked_cli=False, checked_cfg=False)
     i = 0
     # leading store/notify sequence
     while i < len(st) and st[i].get("kind") != "IfStmt":
         t = texts[i].rstrip(";")
         m = re.fullmatch(r"po::store\(po::parse_command_line\(ac,av,(\w+)\),_vm\)", t)
-        if m:
+        m2 = re.fullmatch(r"po::store\((?:(\w+)\()?po::command_line_parser\(ac,av\)\.options\((\w+)\)"
+                          r"(\.positional\(po::positional_options_description\(\)\))?\.run\(\)(\))?,_vm\)", t)
+        m3 = NEGCHECK.fullmatch(t)
+        if m3 and st[i].get("kind") == "DeclStmt" and prog["checker"] is None and not prog["cli"]:
+            # the lambda that refuses a minus sign in the tokens of unsigned options before they are stored
+            prog["checker"] = m3.group(1)
+            prog["negcheck"] = [TXT_TY[read_typedefs().get(x, x)] if read_typedefs().get(x, x) in TXT_TY else x
+                                for x in [m3.group("ty")]]
+            if any(x not in ("TU32", "TU64") for x in prog["negcheck"]):
+                raise TranslateError("parse(): sign check on a type that is not unsigned: %s" % prog["negcheck"])
+        elif m:
             prog["cli"].append(("StoreCli",))
             prog["clidesc"] = m.group(1)
+        elif m2 and bool(m2.group(1)) == bool(m2.group(4)):
+            if m2.group(1):
+                if m2.group(1) != prog["checker"]:
+                    raise TranslateError("parse(): parsed command line passed through %s, which is not understood" % m2.group(1))
+                prog["checked_cli"] = True
+            prog["cli"].append(("StoreCli",))
+            prog["clidesc"] = m2.group(2)
+            prog["nopos"] = bool(m2.group(3))       # empty positional description: a bare word throws
         elif t == "po::notify(_vm)":
             prog["cli"].append(("Notify",))
         else:
@@ -279,7 +301,22 @@ def read_parse(src):
     if not seen_cfg:
         raise TranslateError("parse(): config-file block not found")
     prog["tail"] = tail
+    if prog["checker"] is not None and not (prog["checked_cli"] and prog["checked_cfg"]):
+        raise TranslateError("parse(): the sign check of unsigned options is applied to %s only - not modelled" %
+                             ("the command line" if prog["checked_cli"] else "the config file" if prog["checked_cfg"] else "no source"))
     return prog
+
+
+# `auto f = [this](const po::parsed_options& p) { for (opt : p.options) { unsigned typed option not given before:
+#  a token starting with '-' throws invalid_option_value } return p; };`  (whitespace-free; identifiers free)
+NEGCHECK = re.compile(
+    r"auto(\w+)=\[this\]\(constpo::parsed_options&(\w+)\)\{for\(constauto&(\w+):\2\.options\)\{"
+    r"auto(\w+)=\2\.description->find_nothrow\(\3\.string_key,false\);"
+    r"auto(\w+)=dynamic_cast<constpo::typed_value_base\*>\(\4\?\4->semantic\(\)\.get\(\):nullptr\);"
+    r"if\(\5==nullptr\|\|\5->value_type\(\)!=typeid\((?P<ty>[\w:]+)\)"
+    r"\|\|\(_vm\.count\(\3\.string_key\)&&!_vm\[\3\.string_key\]\.defaulted\(\)\)\)\{continue;\}"
+    r"for\(constauto&(\w+):\3\.value\)\{if\(!\7\.empty\(\)&&\7\.front\(\)=='-'\)\{"
+    r"po::invalid_option_value(\w+)\(\7\);\8\.set_option_name\(\3\.string_key\);throw\8;\}\}\}return\2;\}")
 
 
 def parse_cfg_block(t, prog):
@@ -290,10 +327,14 @@ def parse_cfg_block(t, prog):
     if m:
         rest = rest[m.end():]
     while rest:
-        m = re.match(r'store\(parse_config_file\(ifs,(\w+)\),_vm\);', rest)
-        if m:
+        m = re.match(r'store\((?:(\w+)\()?parse_config_file\(ifs,(\w+)\)(\))?,_vm\);', rest)
+        if m and bool(m.group(1)) == bool(m.group(3)):
+            if m.group(1):
+                if m.group(1) != prog["checker"]:
+                    raise TranslateError("parse(): parsed config file passed through %s, which is not understood" % m.group(1))
+                prog["checked_cfg"] = True
             steps.append(("StoreCfg",))
-            prog["cfgdesc"] = m.group(1)
+            prog["cfgdesc"] = m.group(2)
             rest = rest[m.end():]
             continue
         m = re.match(r'(?:po::)?notify\(_vm\);', rest)
@@ -533,7 +574,8 @@ def translate():
     L.append("  [%s]" % "; ".join(step(s) for s in prog["cli"]))
     L.append("  [%s]" % "; ".join(coq_str(f) for f in prog["flags"]))
     L.append("  %s" % coq_str(cfgopt[0]))
-    L.append("  [%s]." % "; ".join(step(s) for s in prog["cfg"]))
+    L.append("  [%s]" % "; ".join(step(s) for s in prog["cfg"]))
+    L.append("  %s." % ("true" if prog["nopos"] else "false"))
     L.append("")
     an, av, aeq = W["alpha"]
     prec = all(W["precise"].get(t, False) for t in ("TFloat", "TDouble") if t in W["types"]) and \
